@@ -36,16 +36,21 @@ theorem isText_false_of_kind {pv : Value} (h : pv.isElement = true ∨ pv.isDocu
 
 /-- With consolidation on and a text `node`, a text `prev` makes `add_consolidate` merge. -/
 theorem addConsolidate_prev_true {f : Forest} {node p : Nat} {a ps : Str} (next : Option Nat)
-    (hc : f.consolidation = true) (hn : f.textOf node = some a) (hp : f.textOf p = some ps) :
+    (hc : f.consolidation = true) (hn : f.textOf node = some a) (hp : f.textOf p = some ps)
+    (hne : p ≠ node) :
     (f.addConsolidate node (some p) next).2 = true := by
-  unfold addConsolidate
+  rw [addConsolidate_eq_old, selfPrev_of_ne (by simpa using hne)]
+  unfold addConsolidateOld
   simp [hc, hn, hp]
 
 /-- With consolidation on and a text `node`, a text `next` makes `add_consolidate` merge. -/
 theorem addConsolidate_next_true {f : Forest} {node n : Nat} {a ns : Str} (prev : Option Nat)
-    (hc : f.consolidation = true) (hn : f.textOf node = some a) (hx : f.textOf n = some ns) :
+    (hc : f.consolidation = true) (hn : f.textOf node = some a) (hx : f.textOf n = some ns)
+    (hne : n ≠ node) :
     (f.addConsolidate node prev (some n)).2 = true := by
-  unfold addConsolidate
+  rw [addConsolidate_eq_old, selfNext_of_ne (by simpa using hne)]
+  generalize f.selfPrev node prev = prev
+  unfold addConsolidateOld
   simp only [hc, Bool.not_true, Bool.false_eq_true, if_false, hn, hx]
   cases prev with
   | none => rfl
